@@ -11,11 +11,13 @@ Payloads (grammar of the ground form: lean/UPVerif/Drv/C30.lean):
           (goals EXPR …) (init (states ((f o …) …) …)) (bounds Lk Lc))
       EXPR = (lit T|F f ARG …) | (and E …) | (or E …) | (not E) | (exists y E) | (forall y E)
 
-A ground case in which every DNF is a single conjunction over distinct atoms is in the compiler's normal
-form ("normal"): the Lean model answers it completely (possible initial states, basis, relevance
-relation, compiled problem, plan sets) and the answer is diffed against the real compiler.  All other
-cases go through other compilers first (quantifier / disjunction removal, grounding); for them the model
-answers `oracle-only` and only the property's oracle (end-to-end, on the real code) judges them.
+A ground case whose goal and effect conditions are single conjunctions over distinct atoms and whose
+preconditions are either such a conjunction or a disjunction of pairwise different, non-empty ones
+("normal") is answered completely by the Lean model (possible initial states, basis, relevance relation,
+compiled problem, plan sets) and diffed against the real compiler.  All other cases go through the other
+normalising compilers in ways the model does not follow (disjunctive goals / effect conditions, unclean
+conjunctions, quantifiers, lifting); for them the model answers `oracle-only` and only the property's oracle
+(end-to-end, on the real code) judges them.
 """
 import itertools
 import warnings
@@ -37,26 +39,36 @@ GEN = []
 CORR_NAME = "ks0-states+basis+relevance+compiled-problem+plan-sets"
 RULE = ("small Boolean conformant problems: (A) ground normal-form problems (2-4 atoms, 1-3 actions with 0-2 precondition literals "
         "and 1-3 conditional effects on distinct atoms, 0-2 goal literals) with 1-4 random possible initial states (duplicates and "
-        "states differing only on irrelevant atoms planted) or a contingent description (oneof / or / unknown constraints, sometimes "
-        "overlapping or unsatisfiable); (B) the same with proper disjunctions in preconditions / effect conditions / goals and "
-        "unclean conjunctions; (C) lifted problems over two objects with existential / universal conditions and forall effects. "
-        "Non-trivial = the compilation succeeds with >= 2 possible initial states and either some compiled plan within the bound is "
-        "valid or some conformant plan of the original exists within the bound.")
+        "states differing from the first on one atom planted, empty state list sometimes) or a contingent description (1-3 oneof / or / "
+        "unknown constraints, sometimes overlapping, with negative or repeated literals, or unsatisfiable); (A') the same with "
+        "preconditions that are proper disjunctions of conjunctions; (B) the same with disjunctions also in effect conditions and "
+        "goals and with unclean conjunctions (repeated / complementary literals); (C) lifted problems over two objects with "
+        "existential / universal conditions, negated compound conditions and forall effects. A and A' are compared structurally with "
+        "the model, all are judged by the oracle. Non-trivial = the compilation succeeds with >= 2 possible initial states and either "
+        "some compiled plan within the bound is valid or some conformant plan of the original exists within the bound.")
 ASSUMPTIONS = [
     "at most one effect per ground fluent per action (the property's quantifier); in lifted cases the effects of one action are on distinct fluent symbols",
     "conditions contain no Boolean constants (keeps clear of the Dnf/Simplifier defects of C11/C12 in the normalisers)",
     "a conformant plan is a sequence of ground instances of the ORIGINAL problem's actions; semantics = sequential semantics with add-after-delete",
     "completeness is judged for every conformant plan of length <= Lc found by exhaustive belief-space search: the compiled problem must have a valid "
-    "plan that maps back to it (searched with all merges applied eagerly, then by exhaustive search of the compiled state space)",
-    "'dropping dominated states never changes either answer' is judged by recompiling with the reduction switched off and requiring the same "
-    "soundness verdicts and the same set of conformant plans with a compiled counterpart",
-    "structural correspondence is demanded only for problems already in the compiler's normal form; the preceding normalisers are other compilers (C06/C07)",
+    "plan that maps back to it (searched with all merges applied eagerly, then by exhaustive search of the compiled state space, capped at "
+    "4000 states: a capped search counts as inconclusive, never as a failure)",
+    "a refusal (UPUsageError) of a problem is a completeness failure iff a conformant plan exists within the bound; an empty set of possible "
+    "initial states may be refused (documented precondition of the compiler)",
+    "'dropping dominated states never changes either answer' is judged by recompiling with the reduction switched off and requiring soundness "
+    "and completeness of both compilations (w.r.t. ALL possible initial states)",
+    "structural correspondence is demanded only where the preceding normalisers act as the identity or as the plain split of a disjunctive "
+    "precondition; they are other compilers (C06/C07) and are otherwise covered by the oracle only",
+    "problems are built in the global Environment (DisjunctiveConditionsRemover creates its fake-goal fluent there and fails on any other one)",
 ]
 MODELLED = ["modelled by hand (tied by correspondence): Ks0Compiler._compile_normalized_problem, _reduce_possible_initial_states_to_basis, "
             "_get_relevance_relation, _deduplicate_possible_initial_states, _enumerate_hidden_assignments/_assign_oneof_choice, plan back conversion "
-            "of merge actions",
-            "modelled not verified: QuantifiersRemover, DisjunctiveConditionsRemover, Grounder (identity on normal-form inputs; otherwise covered "
-            "by the end-to-end oracle only), UPSequentialSimulator on the compiled problem (C01), Python set/dict/frozenset semantics"]
+            "of merge actions, merge-target collection of _prepare_normalized_problem, DisjunctiveConditionsRemover's split of a disjunctive "
+            "precondition into variants (abstractly: normD)",
+            "relevance fixpoint: computed with fuel (2n)^2+1 and re-checked for closure by the model (fallback: total relation); the driver reports "
+            "the check ('fuel-ok'), the correspondence requires it to be T on every case",
+            "modelled not verified: QuantifiersRemover, Grounder, DisjunctiveConditionsRemover on goals / effect conditions / unclean conjunctions "
+            "(covered by the end-to-end oracle only), UPSequentialSimulator on the compiled problem (C01), Python set/dict/frozenset semantics"]
 BUDGET_S = {"quick": 40, "thorough": 420}
 KIND = CompilationKind.CONFORMANT_TO_CLASSICAL
 BFS_CAP = 4000
@@ -82,15 +94,33 @@ def is_clean(conj):
     return len(set(atoms)) == len(atoms)
 
 
+def clean_conj(d):
+    return len(d) == 1 and is_clean(d[0])
+
+
+def clean_pre(d):
+    """one clean conjunction, or >= 2 pairwise different non-empty clean conjunctions (mirrors Drv/C30.lean cleanPre)"""
+    if clean_conj(d):
+        return True
+    if len(d) < 2 or not all(c and is_clean(c) for c in d):
+        return False
+    sets = [frozenset(tuple(l) for l in c) for c in d]
+    return len(set(sets)) == len(sets)
+
+
 def is_normal(payload):
+    """answered structurally by the model: goal / effect conditions in the compiler's normal form, preconditions possibly
+    proper disjunctions of clean conjunctions (split into variants by the preceding compiler; modelled by `normD`)"""
     if payload[0] != "ground":
         return False
-    dnfs = [sec(payload, "goal")[0]]
+    if not clean_conj(sec(payload, "goal")[0]):
+        return False
     for a in sec(payload, "actions"):
-        dnfs.append(a[1][1])
-        for e in a[2][1:]:
-            dnfs.append(e[0])
-    return all(len(d) == 1 and is_clean(d[0]) for d in dnfs)
+        if not clean_pre(a[1][1]):
+            return False
+        if not all(clean_conj(e[0]) for e in a[2][1:]):
+            return False
+    return True
 
 
 def has_disjunctive_pre_or_goal(payload):
@@ -686,6 +716,8 @@ def oracle_info(payload):
 def stats(payload, ans):
     A = analyse(payload)
     t = [payload[0] + ("-normal" if is_normal(payload) else "-rich")]
+    if is_normal(payload) and has_disjunctive_pre_or_goal(payload):
+        t.append("modelled-with-disjunctive-precondition")
     if payload[0] == "ground" and sec(payload, "init")[0][0] == "contingent":
         t.append("contingent")
     if A.run.error:
@@ -859,13 +891,21 @@ def g_ground(rng, tier, rich, contingent):
     names = rng.sample(ACT_NAMES[:3], rng.choice([1, 2, 2, 3]))
     if rng.random() < 0.1:
         names[0] = rng.choice(ACT_NAMES[3:])
-    goal = g_dnf(rng, atoms, 2, rich)
+    goal = g_dnf(rng, atoms, 2, rich == "all")
     if rng.random() < 0.85 and not any(goal):
         goal = [[[rng.choice(atoms), "T"]]]
     goal_atoms = set(l[0] for c in goal for l in c)
     acts = []
     for n in names:
-        pre = g_dnf(rng, atoms, rng.choice([0, 1, 1, 2]), rich)
+        pre = g_dnf(rng, atoms, rng.choice([0, 1, 1, 2]), rich == "all")
+        if rich == "pre" and rng.random() < 0.6:
+            # proper disjunction of pairwise different non-empty clean conjunctions
+            cands = []
+            for _ in range(rng.choice([2, 2, 3])):
+                c = g_conj(rng, atoms, 2) or [[rng.choice(atoms), rng.choice("TF")]]
+                if not any(set(map(tuple, c)) == set(map(tuple, d)) for d in cands):
+                    cands.append(c)
+            pre = cands
         targets = rng.sample(atoms, min(len(atoms), rng.choice([1, 1, 2, 3])))
         if goal_atoms and rng.random() < 0.5:
             ga = rng.choice(sorted(goal_atoms))
@@ -874,7 +914,7 @@ def g_ground(rng, tier, rich, contingent):
         effs = []
         for x in targets:
             others = [a for a in atoms if a != x] or atoms
-            cond = g_dnf(rng, others if rng.random() < 0.8 else atoms, rng.choice([0, 1, 1, 2]), rich)
+            cond = g_dnf(rng, others if rng.random() < 0.8 else atoms, rng.choice([0, 1, 1, 2]), rich == "all")
             v = "T" if (x in goal_atoms and rng.random() < 0.7) else rng.choice("TF")
             effs.append([cond, x, v])
         acts.append([n, ["pre", pre], ["effs"] + effs])
@@ -948,8 +988,10 @@ def cases(rng, tier):
             yield g_ground(rng, tier, rich=False, contingent=False)
         elif k < 0.68:
             yield g_ground(rng, tier, rich=False, contingent=True)
-        elif k < 0.86:
-            yield g_ground(rng, tier, rich=True, contingent=rng.random() < 0.25)
+        elif k < 0.76:
+            yield g_ground(rng, tier, rich="pre", contingent=rng.random() < 0.25)
+        elif k < 0.88:
+            yield g_ground(rng, tier, rich="all", contingent=rng.random() < 0.25)
         else:
             yield g_lifted(rng, tier)
 
@@ -960,7 +1002,7 @@ def search(rng, tier):
         if k < 0.45:
             yield g_ground(rng, "quick", rich=False, contingent=rng.random() < 0.3)
         elif k < 0.8:
-            yield g_ground(rng, "quick", rich=True, contingent=rng.random() < 0.2)
+            yield g_ground(rng, "quick", rich=rng.choice(["pre", "all"]), contingent=rng.random() < 0.2)
         else:
             yield g_lifted(rng, "quick")
 
